@@ -1,7 +1,7 @@
 \* one index x three attempts, a foreign object, fresh caches, Pods removed externally
 CONSTANTS N = 1 MaxAtt = 3 Delay = 1 Strategy = "AllSuccessful" PT = 2 FD = 2 TTL = 2 Forbid = FALSE Foreign = TRUE MaxTime = 8 MaxEvq = 3 MaxFaults = 2 MaxCrash = 0 Fresh = TRUE KillDelays = {} KillEdits = {} UserDeletes = FALSE ExtDeletes = TRUE NodeDowns = FALSE
  Rejects = FALSE
- Holds = FALSE Invalids = FALSE D = 48
+ Holds = FALSE Invalids = FALSE WatchBreaks = FALSE D = 48
 SPECIFICATION SSpec
 INVARIANT EmitDone
 CHECK_DEADLOCK FALSE
